@@ -44,10 +44,11 @@ pub struct Report {
     pub fingerprint: u64,
 }
 
-const LABELS: [&str; 10] = ["foo", "bar", "foobar", "_my", "_mysrv", "a", "b", "ab", "office", "printer"];
+const LABELS: [&str; 12] = ["foo", "bar", "foobar", "_my", "_mysrv", "a", "b", "ab", "office", "printer", "a.b", "foo.bar"];
 
 fn name(r: &mut Rng) -> Labels {
-    match r.below(8) {
+    match r.below(9) {
+        8 => Vec::new(), // the root
         0 => name_from_str("printer.office.local"),
         1 => name_from_str("officeprinter.local"),
         2 => name_from_str("office.local"),
